@@ -95,6 +95,9 @@ class C01(RailsProp):
             if d.chance(0.12, "dollar-text", t):
                 # a user message that begins with variable syntax (a price): it is text like any other
                 turn["text"] = "$20 " + turn["text"]
+            elif sc["colang"] == "1.0" and d.chance(0.1, "multiline-text", t):
+                # a user message of two lines (a pasted paragraph): one message, gated as a whole
+                turn["text"] = "dear bot,\n" + turn["text"]
         return sc
 
     def execute(self, sc):
